@@ -212,6 +212,15 @@ func runC10(c *core.Ctx) {
 			if len(text) > 400 {
 				text = text[:strings.LastIndex(text[:400], "\n")+1]
 			}
+			if i%3 == 2 {
+				// lines a YAML reader gives a meaning to (document markers, directives): here they are ordinary lines,
+				// and whatever follows them is part of the file
+				lines := strings.SplitAfter(text, "\n")
+				at := r.Intn(len(lines))
+				marker := []string{"...\n", "---\n", "... \n", "%YAML 1.2\n", "...:\n", "...\n"}[r.Intn(6)]
+				text = strings.Join(lines[:at], "") + marker + strings.Join(lines[at:], "")
+				c.Count("l3_files_with_yaml_marker_lines", 1)
+			}
 			data := []byte(text)
 			ref, refErr, _ := parseWith(&countingReader{data: data, limit: -1})
 			if refErr != nil {
